@@ -4,6 +4,7 @@ from common import *
 from taproot_common import *
 
 PID = "C08"
+TIES = ['tagged_hash', 'tapbranch_tagged_hash', 'tapleaf_tagged_hash', 'prepend_compact_size']   # source-tie files coq/Properties/Tie_<f>.v that belong to this property
 THEOREMS = ["C08_root", "C08_path_recomputes", "C08_control_verifies"]
 TECHNIQUE = "Coq proof (merkle root = BIP341 tree root; generated path recomputes the root for every tree and leaf position, by induction on the tree) + extracted-model correspondence and an independent libsecp256k1-based BIP341 reference"
 RULE = ("every full binary tree shape with 1..7 leaves and every leaf index (exhaustive), single-element list wrappers, random shapes to depth 8, "
@@ -124,3 +125,8 @@ def oracle(d):
         cb = refbip341.control_block(d["key"], rt, d["idx"])
         assert refbip341.verify_script_path(cb, leaves[d["idx"]][0], wp)
         return wp.hex() + ",%d|" % odd + cb.hex()
+
+
+# source tie (DESIGN 13.8)
+from common import with_ties
+LEVEL_TEXT, LEVEL_NOTE, TECHNIQUE = with_ties(TIES, LEVEL_TEXT, LEVEL_NOTE, TECHNIQUE)
